@@ -401,7 +401,7 @@ def witnesses(ctx):
         ctx.disagree("C10:is_coplanar:dependent-prefix", desc, False, r[1:3], replay=[desc])
 
 
-def collinear_collections(ctx, n):
+def collinear_collections(ctx, n, prefix="C10"):
     """is_collinear with more than n arguments on collections whose positions differ: at one position already the first three
     points are in general position, at another the first three are collinear and only a later argument is off, at a third all
     are collinear - every position is answered on its own"""
@@ -426,7 +426,7 @@ def collinear_collections(ctx, n):
         ctx.count("is_collinear:mixed-collection")
         r = call_impl(lambda: np.asarray(g.is_collinear(*cols)).tolist())
         if r[0] != "ok" or r[1] != [exp[i] for i in order]:
-            ctx.disagree("C10:is_collinear:mixed-collection", desc, [exp[i] for i in order], r[1:3], replay=[desc])
+            ctx.disagree(f"{prefix}:is_collinear:mixed-collection", desc, [exp[i] for i in order], r[1:3], replay=[desc])
 
 
 def scaled_parallel_stream(ctx, n):
